@@ -1,5 +1,6 @@
-"""C19 unit: highest_density_region vs Model/HDR.v (correspondence only: no theorem about this model) and the
-level-set predicate on the implementation's output.
+"""C19 unit: highest_density_region vs Model/HDR.v, and the defining formulas of Spec/HDRSpec.v (the spec side of
+C19_hdr_upper_is_definition, C19_hdr_is_definition, C19_hdr_fractions_independent,
+C19_hdr_intervals_fit_buffer) evaluated independently in Python on the implementation's output.
 
 A case: (data, fractions, only_upper_part, buffer_size).
 """
@@ -13,11 +14,15 @@ from harness import lib
 from harness.props.c19_common import Unit, big
 
 NAME = "highest_density_region"
-RULE = ("highest_density_region: all distributions of 1..4 samples over {0..3} and 5 samples over {0,1,3} (thorough: 1..6 over {0..3}) with positive total, four "
-        "ascending dyadic fraction lists, both only_upper_part settings, buffer sizes 10 and 2; intervals compared "
-        "exactly, amplitudes within 2^-22 relative (+2^-40 absolute) of the model's exact rational; cases with exactly "
-        "buffer_size+1 intervals (the -1 marker since /repo 1da565c) are included; non-trivial = >= 2 intervals for "
-        "some fraction or a fraction satisfied before the last level; distinct by (data, fractions, upper, buffer).")
+RULE = ("highest_density_region: all distributions of 1..4 samples over {0..3} and 5 samples over {0,1,3} (thorough: "
+        "1..6 over {0..3}) with positive total, four ascending dyadic fraction lists, both only_upper_part settings, "
+        "buffer sizes 10 and 2, plus seeded random distributions of 6..14 samples over {0..6} with plateaus and ties "
+        "and random ascending dyadic fraction lists; intervals compared exactly, amplitudes within 2^-22 relative "
+        "(+2^-40 absolute) of the exact rational; predicate = the defining formulas (height with area above = "
+        "fraction x total and the runs of the samples above it; smallest upper level set holding the fraction), "
+        "evaluated on every case; cases with exactly buffer_size+1 intervals (the -1 marker since /repo 1da565c) are "
+        "included; non-trivial = >= 2 intervals for some fraction or a fraction satisfied before the last level; "
+        "distinct by (data, fractions, upper, buffer).")
 FRACTION_SETS = [
     [Fraction(1, 2)],
     [Fraction(1, 4), Fraction(1, 2), Fraction(3, 4)],
@@ -26,6 +31,9 @@ FRACTION_SETS = [
 ]
 # three intervals with _buffer_size = 2: the pinned code wrote beyond res[fi, :, :2] (fixed by /repo 1da565c)
 OOB_WITNESS = {"data": [1, 0, 1, 0, 1], "fractions": [[9, 10]], "upper": 0, "bs": 2}
+# tied largest sample, one of the tied samples alone holds the fraction, only_upper_part=False: the pinned code
+# returned the single sample 2 although sample 0 is as high (fixed by /repo 2181c25; C19_hdr_is_definition_pinned_refuted)
+TIE_WITNESS = {"data": [3, 1, 3, 0], "fractions": [[1, 4]], "upper": 0, "bs": 10}
 
 
 def impl(data, fs, upper, bs):
@@ -71,34 +79,96 @@ def agree(out, mexp):
     return len(out) == len(mexp) and all(a[0] == b[0] and close(a[1], b[1]) for a, b in zip(out, mexp))
 
 
+def runs_of(idx):
+    """maximal runs [s, e) of a set of indices"""
+    out = []
+    for i in sorted(idx):
+        if out and out[-1][1] == i:
+            out[-1] = (out[-1][0], i + 1)
+        else:
+            out.append((i, i + 1))
+    return out
+
+
+def area_above(data, h):
+    return sum(max(Fraction(d) - h, 0) for d in data)
+
+
+def height_of_fraction(data, f):
+    """the height h with sum(max(d - h, 0)) == f * sum(data) (unique for 0 < f <= 1, data >= 0, positive total)"""
+    target = f * sum(data)
+    for lev in sorted(set(data), reverse=True):
+        a = area_above(data, lev)
+        if a >= target:
+            return lev + (a - target) / sum(1 for d in data if d > lev)
+    lev = min(data)
+    return lev - (target - area_above(data, lev)) / len(data)
+
+
+def top_tie(data, f):
+    """the largest sample is tied and one of the tied samples alone holds the fraction (the case the pinned code got
+    wrong)"""
+    m = max(data)
+    return data.count(m) > 1 and m >= f * sum(data)
+
+
+def expected(data, f, upper):
+    """(intervals, amplitude) by the defining formulas of Spec/HDRSpec.v (hdr_upper_result / hdr_level_result)"""
+    tot = sum(data)
+    if upper:
+        h = height_of_fraction(data, f)
+        assert area_above(data, h) == f * tot and h >= 0
+        return runs_of(i for i, d in enumerate(data) if d > h), h
+    lev = max(L for L in set(data) if sum(d for d in data if d >= L) >= f * tot)
+    inside = [i for i, d in enumerate(data) if d >= lev]
+    return runs_of(inside), (sum(data[i] for i in inside) - f * tot) / len(inside)
+
+
 def predicate(data, fs, upper, bs, out):
-    """intervals are sorted, disjoint, inside the array; the covered samples form an upper level set; without
-    only_upper_part they hold at least the desired fraction of the total."""
+    """spec side of C19_hdr_upper_is_definition / C19_hdr_is_definition / C19_hdr_intervals_fit_buffer, for
+    every fraction independently (C19_hdr_fractions_independent): only_upper_part: the amplitude is the height above
+    which the distribution holds exactly the fraction and the intervals are the maximal runs of the samples above
+    it; otherwise the maximal runs of the smallest upper level set holding the fraction, amplitude = surplus area /
+    number of samples; the -1 marker exactly when there are more intervals than max(1, buffer) slots."""
     if not isinstance(out, list):
         return None if sum(data) <= 0 else "raised on a distribution with positive total"
-    n, tot = len(data), sum(data)
+    if sum(data) <= 0:
+        return "no ValueError for a total of %s" % sum(data)
+    if min(data) < 0 or any(not (0 < f <= 1) for f in fs) or list(fs) != sorted(fs):
+        return None
     for f, (iv, amp) in zip(fs, out):
+        eiv, eamp = expected(data, f, upper)
         if iv is None:
-            continue
-        if not iv:
-            return "fraction %s: no interval" % f
-        pos = 0
-        for s, e in iv:
-            if not (pos <= s < e <= n):
-                return "fraction %s: intervals %s not sorted/disjoint/inside [0,%d]" % (f, iv, n)
-            pos = e + 1 if e < n else e
-        cov = set(i for s, e in iv for i in range(s, e))
-        inside = [data[i] for i in cov]
-        outside = [data[i] for i in range(n) if i not in cov]
-        if outside and min(inside) < max(outside):
-            return "fraction %s: covered samples %s are not an upper level set of %s" % (f, sorted(cov), data)
-        if not upper and Fraction(sum(inside), tot) < f:
-            return "fraction %s: intervals %s hold only %s of the total" % (f, iv, Fraction(sum(inside), tot))
+            if len(eiv) <= max(1, bs):
+                return "fraction %s: overflow marker although the %d intervals %s fit %d slots" % (f, len(eiv), eiv, bs)
+        elif iv != eiv:
+            return "fraction %s: intervals %s, by definition %s (%s)" % (
+                f, iv, eiv, "samples above the height %s" % eamp if upper else "smallest upper level set holding it")
+        elif len(eiv) > max(1, bs):
+            return "fraction %s: %d intervals returned for a buffer of %d" % (f, len(eiv), bs)
+        if not close(amp, eamp):
+            return "fraction %s: amplitude %s, by definition %s" % (f, float(amp), eamp)
     return None
 
 
-def n_runs(data, fs, upper, mexp):
-    return max([len(iv) for iv, _ in mexp if iv is not None] + [0]) if isinstance(mexp, list) else 0
+def random_case(rng):
+    n = rng.randint(6, 14)
+    kind = rng.random()
+    if kind < 0.4:          # plateaus: runs of equal samples (ties at every level)
+        data = []
+        while len(data) < n:
+            data += [rng.randint(0, 6)] * rng.randint(1, 4)
+        data = data[:n]
+    elif kind < 0.7:        # two bumps
+        c1, c2 = rng.randrange(n), rng.randrange(n)
+        data = [max(0, 5 - abs(i - c1)) + max(0, 4 - 2 * abs(i - c2)) for i in range(n)]
+    else:
+        data = [rng.randint(0, 6) for _ in range(n)]
+    if sum(data) <= 0:
+        data[rng.randrange(n)] = 3
+    k = rng.randint(1, 4)
+    fs = sorted(Fraction(rng.randint(1, 32), 32) for _ in range(k))
+    return data, fs, rng.randint(0, 1), rng.choice([10, 10, 3, 2, 1])
 
 
 def unit(ctx):
@@ -112,6 +182,8 @@ def unit(ctx):
             for fi, fs in enumerate(FRACTION_SETS):
                 for upper in (0, 1):
                     cases.append((list(data), fs, upper, 10 if (fi + upper) % 2 == 0 else 2))
+    for _ in range(20000 if big(ctx) else 1500):
+        cases.append(random_case(ctx.rng))
     lines = ["hdr %d %d %d %s %d %s" % (upper, bs, len(d), " ".join(map(str, d)), len(fs),
                                         " ".join("%d %d" % (f.numerator, f.denominator) for f in fs))
              for d, fs, upper, bs in cases]
@@ -121,6 +193,10 @@ def unit(ctx):
         u.n += 1
         out = impl(data, fs, upper, bs)
         u.tally("err" if isinstance(out, str) else ("overflow(-1)" if any(iv is None for iv, _ in out) else "ok"))
+        if isinstance(out, list) and sum(data) > 0:
+            u.tally("only_upper_part" if upper else
+                    ("level_set, tied maximum holds a fraction" if any(top_tie(data, f) for f in fs)
+                     else "level_set"))
         if isinstance(out, list) and any(iv is not None and len(iv) >= 2 for iv, _ in out):
             u.nontriv.add((tuple(data), tuple(fs), upper, bs))
         inp = {"data": data, "fractions": [[f.numerator, f.denominator] for f in fs], "upper": upper, "bs": bs}
@@ -132,12 +208,15 @@ def unit(ctx):
             reason = predicate(data, fs, upper, bs, out)
             if reason:
                 u.report(inp, str(out)[:500], str(mexp)[:500], "implementation AND model: " + reason)
-    w = OOB_WITNESS
-    wfs = [Fraction(a, b) for a, b in w["fractions"]]
-    out = impl(w["data"], wfs, w["upper"], w["bs"])
-    reason = predicate(w["data"], wfs, w["upper"], w["bs"], out)
-    if reason:
-        ctx.violation(u.name, "buffer_size+1 intervals: " + reason + " (returned %s)" % (out,), {"input": w})
+                if u.bad > 5:
+                    break
+    for w, what in ((OOB_WITNESS, "buffer_size+1 intervals"),
+                    (TIE_WITNESS, "tied largest sample (the pinned code cut the tie)")):
+        wfs = [Fraction(a, b) for a, b in w["fractions"]]
+        out = impl(w["data"], wfs, w["upper"], w["bs"])
+        reason = predicate(w["data"], wfs, w["upper"], w["bs"], out)
+        if reason:
+            ctx.violation(u.name, "%s: %s (returned %s)" % (what, reason, out), {"input": w})
     u.done()
     k = len(cases) // 2
     ctx.sample({"unit": u.name, "data": cases[k][0], "fractions": [str(f) for f in cases[k][1]],
